@@ -1,6 +1,6 @@
 """C05 - cut commits the clause and nothing else."""
 import sys, time, json, random
-from lib import semcheck, progs, progs_shapes, progs_r4, consumers, ast_io
+from lib import semcheck, progs, progs_shapes, progs_r4, progs_r5, consumers, ast_io
 from lib.semcheck import model_expr, compare, describe, shrink, IMPORTS
 
 ID = 'C05'
@@ -23,12 +23,18 @@ RULE = ('random programs as for C01 whose bodies also contain ! at the top level
         'predicates (the callers) written in Python as re-entrant twins that query the same engine inside their loops (yielding False / True / '
         'passing the flag of their last goal on), and with the clauses of one predicate split over two scripts loaded with overwrite=False; '
         'all must present the answers of plain iteration of the all-compiled single script (the split one when its first part has no cut; '
-        'otherwise only its own consumers must agree with each other), leave no variable bound and the recursion limit unchanged.')
+        'otherwise only its own consumers must agree with each other), leave no variable bound and the recursion limit unchanged.  Round 5: '
+        'programs in which a cut stands in the text but is not executed on some of the calls made (lib/progs_r5.py): neck-cut clauses whose head '
+        'may not match (repeated variables d(X,X) :- !, .., constants, structures, list patterns, and the always-matching control case), a goal '
+        'that may fail left of the cut, a cut in the branch of an if-then-else / disjunction that is not taken - each standing left of '
+        'alternatives that must then still be tried (right-hand side of an enclosing disjunction, with and without a continuation behind it; '
+        'later clauses; the caller\'s own alternatives), queried so that the cut is reached on some calls and not on others.')
 TRUSTED_BASE = []
 
 N_LONG = {'quick': 60, 'thorough': 450}
 N_REC = {'quick': 50, 'thorough': 400}
 N_LIMIT = {'quick': 50, 'thorough': 400}
+N_UNTAKEN = {'quick': 90, 'thorough': 900}
 
 def gen(rng, tier):
     n = 220 if tier == 'quick' else 5000
@@ -57,6 +63,10 @@ def gen(rng, tier):
     # and just beyond it (21, 22), where the compiler must refuse (the model compiler's verdict is compared: semcheck.compare)
     for _ in range(N_LIMIT[tier]):
         cases.append(progs_r4.gen_limit_body_program(rng))
+    # round 5: a cut that stands in the text but is not executed on some calls (head of the neck-cut clause does not match, a goal left
+    # of the cut fails, the cut's branch is not taken) while alternatives exist behind it (lib/progs_r5.py)
+    for _ in range(N_UNTAKEN[tier]):
+        cases.append(progs_r5.gen_untaken_cut_program(rng))
     return cases
 
 def builtin_corpus():
